@@ -105,4 +105,4 @@ Definition enc (s : settings) : list Z :=
    match optimize s with None => 0 | Some l => level_idx l end; evm_idx (evm_version s);
    ob (experimental_codegen s); ob (debug s); ob (enable_decimals s); ob (nonreentrancy_by_default s);
    ob (disable_static_exceptions s); vf_enc (venom_flags s)]%Z.
-Definition enc_res (r : option settings) : list Z := match r with Some s => 1%Z :: enc s | None => [0%Z] end.
+Definition enc_res (r : option settings) : list Z := match r with Some s => 1%Z :: enc s | None => [0;0;0;0;0;0;0;0;0;0]%Z end.
